@@ -525,6 +525,9 @@ struct CloseTrailBroker {
     trailer: Vec<u8>,
     glue: usize,
     block: bool,
+    /// 0 = CloseOk (+ trailer); 1 = hang up instead of answering; 2 = a CloseOk with a wrong
+    /// frame-end octet, then the real one, cut after `glue` bytes
+    instead: u8,
 }
 
 impl crate::broker::Responder for CloseTrailBroker {
@@ -532,6 +535,30 @@ impl crate::broker::Responder for CloseTrailBroker {
         use amq_protocol::protocol::connection::{AMQPMethod as Conn, CloseOk};
         use amq_protocol::protocol::AMQPClass;
         if let AMQPFrame::Method(0, AMQPClass::Connection(Conn::Close(_))) = frame {
+            if self.instead == 1 {
+                io.wire.push_items(vec![crate::wire::InItem::Eof]);
+                return;
+            }
+            if self.instead == 2 {
+                let good = encode(&AMQPFrame::Method(0, AMQPClass::Connection(Conn::CloseOk(CloseOk {}))));
+                let mut bytes = good.clone();
+                let n = bytes.len();
+                bytes[n - 1] = 0xCD;
+                bytes.extend_from_slice(&good);
+                let k = self.glue.min(bytes.len());
+                let mut items = Vec::new();
+                if k > 0 {
+                    items.push(crate::wire::InItem::Data(bytes[..k].to_vec()));
+                }
+                if k < bytes.len() {
+                    if self.block && k > 0 {
+                        items.push(crate::wire::InItem::Block);
+                    }
+                    items.push(crate::wire::InItem::Data(bytes[k..].to_vec()));
+                }
+                io.wire.push_items(items);
+                return;
+            }
             if !self.trailer.is_empty() {
                 let ok = AMQPFrame::Method(0, AMQPClass::Connection(Conn::CloseOk(CloseOk {})));
                 let k = self.glue.min(self.trailer.len());
@@ -590,7 +617,15 @@ pub fn exec_session(c: &SCase) -> Outcome {
         ..Default::default()
     };
     let ctx = format!("{} bytes of {:?} ({} bytes, frame boundaries {:?}) glued to OpenOk", glue, c.frames, trailer.len(), bounds);
-    let close_trailer: Vec<u8> = match c.close_trailer % 4 {
+    // 4 = the server hangs up instead of answering the close; 5 = it answers with a malformed
+    // CloseOk followed by a proper one (24 bytes, cut anywhere)
+    let instead = match c.close_trailer % 6 {
+        4 => 1u8,
+        5 => 2,
+        _ => 0,
+    };
+    let close_trailer: Vec<u8> = match c.close_trailer % 6 {
+        4 | 5 => Vec::new(),
         0 => Vec::new(),
         1 => encode(&AMQPFrame::Heartbeat(0)),
         2 => [encode(&AMQPFrame::Heartbeat(0)), encode(&AMQPFrame::Heartbeat(0))].concat(),
@@ -598,8 +633,8 @@ pub fn exec_session(c: &SCase) -> Outcome {
         // (a random size field would make the client reserve up to 4 GiB for the "frame")
         _ => vec![9, 0, 0, 0, 0, 0, 3, (c.salt >> 8) as u8, (c.salt >> 16) as u8, (c.salt >> 24) as u8, 0x00],
     };
-    let close_glue = pick(c.close_glue, close_trailer.len() + 1);
-    let ctx = format!("{}; behind the server's CloseOk: {} bytes (kind {}), {} of them in CloseOk's segment", ctx, close_trailer.len(), c.close_trailer % 4, close_glue);
+    let close_glue = if instead == 2 { pick(c.close_glue, 25) } else { pick(c.close_glue, close_trailer.len() + 1) };
+    let ctx = format!("{}; behind the server's CloseOk: {} bytes (kind {}), {} of them in CloseOk's segment", ctx, close_trailer.len(), c.close_trailer % 6, close_glue);
     let mut sess = open_session(
         &ClientCfg::default(),
         scfg,
@@ -609,6 +644,7 @@ pub fn exec_session(c: &SCase) -> Outcome {
             trailer: close_trailer.clone(),
             glue: close_glue,
             block: c.block_between,
+            instead,
         },
     );
     let mut conn = match sess.conn.take() {
@@ -668,10 +704,14 @@ pub fn exec_session(c: &SCase) -> Outcome {
             if let Err(e) = r {
                 return Outcome::fail("session-depends-on-segmentation:call-failed", format!("{:?}\n{}", e, ctx));
             }
-            match close {
-                Some(Ok(())) => {}
-                Some(Err(e)) => return Outcome::fail("session-depends-on-segmentation:close-failed", format!("{:?}\n{}", e, ctx)),
-                None => return Outcome::hang("session-depends-on-segmentation:close-hang", ctx),
+            match (instead, close) {
+                (0, Some(Ok(()))) => {}
+                // the server hung up / sent something that is not a frame instead of CloseOk:
+                // the close fails with exactly that, wherever the bytes were cut
+                (1, Some(Err(Error::UnexpectedSocketClose))) => {}
+                (2, Some(Err(Error::MalformedFrame))) => {}
+                (_, Some(other)) => return Outcome::fail("session-depends-on-segmentation:close-failed", format!("{:?}\n{}", other, ctx)),
+                (_, None) => return Outcome::hang("session-depends-on-segmentation:close-hang", ctx),
             }
         }
         Some((code, text)) => {
@@ -701,6 +741,9 @@ pub fn exec_session(c: &SCase) -> Outcome {
         o.labels.push("server-close-right-behind-open-ok".into());
     }
     o.labels.push(if c.block_between { "would-block-between-segments".into() } else { "segments-back-to-back".to_string() });
+    if instead > 0 && server_close.is_none() {
+        o.labels.push(if instead == 1 { "close-answered-by-hang-up".into() } else { "close-answered-by-malformed-close-ok".to_string() });
+    }
     if !close_trailer.is_empty() && server_close.is_none() {
         o.labels.push(format!("bytes-behind-close-ok:{}", if close_glue == 0 { "next-read" } else if close_glue == close_trailer.len() { "same-read" } else { "cut-inside" }));
     }
@@ -714,7 +757,7 @@ fn sstrat(_t: Tier) -> BoxedStrategy<SCase> {
         2 => Just(TFrame::Heartbeat),
     ];
     let tail = prop_oneof![3 => Just(None), 1 => (200u16..600, gen::short_string()).prop_map(|(c, t)| Some(TFrame::ServerClose(c, t)))];
-    (vec(f, 0..4), tail, any::<u16>(), prop_oneof![3 => Just(0u8), 1 => 1u8..9], any::<u64>(), any::<bool>(), (0u8..4, any::<u16>()))
+    (vec(f, 0..4), tail, any::<u16>(), prop_oneof![3 => Just(0u8), 1 => 1u8..9], any::<u64>(), any::<bool>(), (0u8..6, any::<u16>()))
         .prop_map(|(mut frames, tail, glue, handshake_chunk, salt, block_between, close)| {
             if let Some(t) = tail {
                 frames.push(t);
@@ -752,7 +795,7 @@ pub fn parts() -> Vec<Box<dyn PartDyn>> {
     }),
     Box::new(Part::<SCase> {
         name: "session",
-        rule: "whole sessions on the mock transport in which the server sends 1-3 frames of its own accord (Connection.Blocked with a generated reason, Unblocked, heartbeats, optionally ending with Connection.Close(code, text)) right behind OpenOk, a generated number of their bytes (0..=all) arriving in the same read segment as OpenOk and the rest in the next one (with or without a would-block in between), handshake replies whole or cut into 1-8 byte segments; oracle: wherever the cut falls the connection opens, open_channel / qos / Channel::close and Connection::close succeed and nothing panics or hangs - the same holds when the server sends heartbeats or non-frame bytes behind the CloseOk that answers Connection::close, cut anywhere - or, with a server close among the frames, exactly one CloseOk is written, as the last frame, and Connection::close reports the code and text; non-trivial = the read that carries OpenOk ends strictly inside the following frame; distinct by case hash",
+        rule: "whole sessions on the mock transport in which the server sends 1-3 frames of its own accord (Connection.Blocked with a generated reason, Unblocked, heartbeats, optionally ending with Connection.Close(code, text)) right behind OpenOk, a generated number of their bytes (0..=all) arriving in the same read segment as OpenOk and the rest in the next one (with or without a would-block in between), handshake replies whole or cut into 1-8 byte segments; oracle: wherever the cut falls the connection opens, open_channel / qos / Channel::close and Connection::close succeed and nothing panics or hangs - the same holds when the server sends heartbeats or non-frame bytes behind the CloseOk that answers Connection::close, cut anywhere, and when the server answers the close by hanging up or with a malformed CloseOk the close fails with UnexpectedSocketClose / MalformedFrame wherever the bytes are cut - or, with a server close among the frames, exactly one CloseOk is written, as the last frame, and Connection::close reports the code and text; non-trivial = the read that carries OpenOk ends strictly inside the following frame; distinct by case hash",
         cases: |t| t.pick(1500, 30_000),
         threads: 16,
         strategy: sstrat,
